@@ -373,6 +373,8 @@ class Bits:
         n -- The number of concatenations. Must be >= 0.
 
         """
+        if not isinstance(n, numbers.Integral):
+            raise TypeError(f"Can only multiply a bitstring by an integer, not '{type(n).__name__}'.")
         if n < 0:
             raise ValueError("Cannot multiply by a negative integer.")
         if not n:
